@@ -708,6 +708,7 @@ pub fn e2e_session_gap(rep: &mut Report, seed: u64, verbose: bool, gap_ms: u64) 
     }
     // the emulator ending on its own before the guest finished and before any stop command was sent
     let ended_early = count_lines(&transcript) < expected.len() && transcript.starts_with(b"ready\n") && matches!(child.try_wait(), Ok(Some(_)));
+    let mut had_to_be_killed = false;
     let _ = stream.write_all(b"cmd:stop\n");
     let _ = stream.flush();
     let t_end = std::time::Instant::now() + std::time::Duration::from_secs(5);
@@ -717,6 +718,7 @@ pub fn e2e_session_gap(rep: &mut Report, seed: u64, verbose: bool, gap_ms: u64) 
             Ok(Some(_)) => break,
             _ if std::time::Instant::now() > t_end => {
                 let _ = child.kill();
+                had_to_be_killed = true;
                 break;
             }
             _ => {}
@@ -755,7 +757,8 @@ pub fn e2e_session_gap(rep: &mut Report, seed: u64, verbose: bool, gap_ms: u64) 
                 return true;
             }
         }
-        rep.inconclusive.push(format!("end-to-end session seed {} timed out waiting for the emulator's messages", seed));
+        let ready = transcript.starts_with(b"ready\n");
+        rep.inconclusive.push(format!("end-to-end session seed {} timed out waiting for the emulator's messages{}{}", seed, if ready { " [ready received]" } else { "" }, if had_to_be_killed { " [cmd:stop ignored]" } else { "" }));
         return false;
     }
     // ---- offline transcript check
@@ -815,13 +818,27 @@ pub fn c18(rep: &mut Report, cfg: &Cfg) {
     // a session that times out (host overloaded, port taken between probe and bind, ...) is repeated
     // up to twice before it counts as inconclusive
     fn with_retries(rep: &mut Report, seed: u64, gap_ms: u64) {
+        let mut dead = 0;
         for attempt in 0..3 {
             let n0 = rep.inconclusive.len();
             e2e_session_gap(rep, seed.wrapping_add(attempt), false, gap_ms);
-            if rep.inconclusive.len() > n0 && attempt < 2 {
-                rep.inconclusive.truncate(n0);
-                rep.count("e2e_sessions_repeated_after_time_out", 1);
-                continue;
+            if rep.inconclusive.len() > n0 {
+                let m = rep.inconclusive.last().cloned().unwrap_or_default();
+                if m.contains("[ready received]") && m.contains("[cmd:stop ignored]") {
+                    dead += 1;
+                }
+                if attempt < 2 {
+                    rep.inconclusive.truncate(n0);
+                    rep.count("e2e_sessions_repeated_after_time_out", 1);
+                    continue;
+                }
+                // three sessions in a row in which the emulator announced itself on the connection and
+                // then reacted to nothing for 20 s, not even to the final cmd:stop (5 s more): the
+                // control lines do not reach the run loop over TCP
+                if dead == 3 {
+                    rep.inconclusive.truncate(n0);
+                    rep.finding("e2e|no-reaction-to-any-line", || format!("three TCP sessions in a row (seeds {}..{}): `ready` arrived, then no reaction to any line within 20 s and none to cmd:stop within 5 s more (the process had to be killed)", seed, seed.wrapping_add(2)), || format!("check=C18 kind=e2e seed={} gap={}", seed, gap_ms));
+                }
             }
             break;
         }
